@@ -65,6 +65,17 @@ func strOf(v value) string {
 	panic(fmt.Sprintf("strOf: %T", v))
 }
 
+// strEnum is strOf for native library calls on text (number parsing): symbolic bytes are enumerated.
+func strEnum(v value) string {
+	if ss, ok := v.(sstring); ok {
+		if _, conc := normString(ss).(string); !conc {
+			X.stub("native text routine on a symbolic string: its bytes are enumerated")
+			return concretizeString(ss)
+		}
+	}
+	return strOf(v)
+}
+
 // Nondet creates a fresh symbolic input of basic kind k.
 func (x *Exec) Nondet(name string, k types.BasicKind) value {
 	kn := kindName(k)
@@ -500,7 +511,7 @@ func init() {
 			return strconv.FormatFloat(args[0].(float64), byte(asInt64(args[1])), int(asInt64(args[2])), int(asInt64(args[3])))
 		},
 		"strconv.ParseFloat": func(fr *frame, args []value) value {
-			f, err := strconv.ParseFloat(strOf(args[0]), int(asInt64(args[1])))
+			f, err := strconv.ParseFloat(strEnum(args[0]), int(asInt64(args[1])))
 			if err != nil {
 				return tuple{f, makeErrorString(fr.i, err.Error())}
 			}
@@ -532,7 +543,7 @@ func init() {
 
 		// --- math/big (native on concrete values) ---
 		"math/big.ParseFloat": func(fr *frame, args []value) value {
-			f, b, err := big.ParseFloat(strOf(args[0]), int(asInt64(args[1])), uint(asInt64(args[2])), big.RoundingMode(asInt64(args[3])))
+			f, b, err := big.ParseFloat(strEnum(args[0]), int(asInt64(args[1])), uint(asInt64(args[2])), big.RoundingMode(asInt64(args[3])))
 			var fv value = nativeObj{f}
 			if err != nil {
 				return tuple{(*value)(nil), b, makeErrorString(fr.i, err.Error())}
